@@ -359,13 +359,13 @@ def recRead (_cfg : Cfg) (rd : Reader) (v : List Rec × Tail) : RecRes :=
       | ([], _) => .err .unexpectedEnd rd.norm
 
 def recRun (cfg : Cfg) : Nat → Reader → List Rec × Tail → Output
-  | 0, rd, _ => ⟨[], .outOfFuel, rd.cidsEnd⟩
+  | 0, rd, _ => ⟨[], .outOfFuel, rd.access⟩
   | fuel + 1, rd, v =>
     match recRead cfg rd v with
     | .item it rd' v' => (recRun cfg fuel rd' v').cons it
-    | .finished rd' => ⟨[], .finished, rd'.cidsEnd⟩
-    | .err e rd' => ⟨[], .err e, rd'.cidsEnd⟩
-    | .outOfFuel => ⟨[], .outOfFuel, rd.cidsEnd⟩
+    | .finished rd' => ⟨[], .finished, rd'.access⟩
+    | .err e rd' => ⟨[], .err e, rd'.access⟩
+    | .outOfFuel => ⟨[], .outOfFuel, rd.access⟩
 
 /-- The records the reader is going to see, given its look-ahead. -/
 def viewOf (hasEx : Bool) (rd : Reader) (s : List UInt8) : List Rec × Tail :=
@@ -406,7 +406,7 @@ theorem post_nextKind {rd : Reader} {fit : FItem} :
       | (simp at h; done)
       | (simp only [Post.item.injEq] at h; obtain ⟨_, rfl⟩ := h; rfl)
 
-theorem cidsEnd_norm (rd : Reader) : rd.norm.cidsEnd = rd.cidsEnd := rfl
+theorem cidsEnd_norm (rd : Reader) : rd.norm.access = rd.access := rfl
 
 /-- `readWithKind` and the record-level step agree — unless the callback fails. -/
 theorem readWithKind_lockstep (cfg : Cfg) (rd : Reader) (k : Kind) (b : Buffer) (c : Cb) (hw : b.wf)
